@@ -556,6 +556,16 @@ fn plan_base(prop: &str) -> Vec<Item> {
             }
             v.push(it("pool_census", "pool=1,n=2,phases=4", Some(1), 2));
             v.push(it("pool_census", "pool=2,n=2,phases=4", Some(0), 1));
+            // the public set_max_threads (eager thread start) instead of the hook, also racing with scheduling calls
+            for pool in [0, 1, 2] {
+                v.push(it("pool_census", &format!("pool={},n=2,phases=2,api=1", pool), Some(if pool == 2 { 0 } else { 1 }), if pool == 2 { 0 } else { 2 }));
+            }
+            v.push(it("pool_census", "pool=0,n=2,phases=5,api=1", Some(1), 2));
+            v.push(it("pool_census", "pool=1,n=1,phases=5,api=1", Some(1), 1));
+            v.push(it("pool_census", "pool=1,n=2,phases=5,api=1", Some(0), 1));
+            v.push(it("pool_census", "pool=2,n=1,phases=5,api=1", Some(0), 0));
+            v.push(it("pool_census", "pool=1,n=2,phases=3,api=1", Some(1), 2));
+            v.push(it("pool_census", "pool=1,n=2,phases=4,api=1", Some(0), 1));
             v.push(it("pool_census", "pool=1,n=2,phases=0,dbg=1", Some(1), 2));
             v.push(it("pool_census", "pool=2,n=2,phases=0,dbg=1", Some(0), 1));
             v.push(it("pool_census", "pool=1,n=3,phases=0", Some(1), 2));
